@@ -358,7 +358,8 @@ def _parking(ix, inv, r, prop):
     for pos, ds in ix.deliveries.items():
         for d in ds:
             if d["inv"] == inv and d["how"] == "abort" and d["cls"] in SUSPEND and d["op"] in (LEAF_OPS | {"wfc"}) and not d.get("inner"):
-                if any(_is_under(pos, p) and d["s0"] > s for p, s in done.items()):
+                # a branch of a map/parallel that has already returned is an orphan: its result is final without it
+                if any(_is_under(pos, p) and ix.deliveries[p][0]["op"] in ("parallel", "map") for p in done):
                     continue
                 aborts.append(d)
     # only the last suspension of each position counts (resubmitted branches park again)
